@@ -163,6 +163,13 @@ func shimRange(x *Exec, t *Thread, a []Value, c *callCtx) (Value, nativeStatus) 
 	lo, hi := a[1].(*Term), a[2].(*Term)
 	x.assume(x.F.Cmp(OpSle, lo, v))
 	x.assume(x.F.Cmp(OpSle, v, hi))
+	if lo.IsConst() && hi.IsConst() {
+		// a fresh variable in a constant range: satisfiable iff the range is not empty
+		if lo.SVal() > hi.SVal() {
+			x.end("infeasible", "")
+		}
+		return v, nDone
+	}
 	if x.check(nil) != Sat {
 		x.end("infeasible", "")
 	}
